@@ -137,6 +137,7 @@ func (g *gen) n(label string, lo, hi int) int {
 func (g *gen) chance(label string, pct int) bool {
 	return uniform(g.t, label, 100) < pct
 }
+
 // bytes returns n pseudo-random bytes expanded (SHA-256 in counter mode) from a drawn 48-bit seed: uniform
 // content, cheap for long strings, and still a pure function of rapid's choices.
 func (g *gen) bytes(label string, n int) []byte {
